@@ -2,8 +2,10 @@
 # runall.sh [tier] — every registered check once; prints one summary line per property and the exit codes.
 cd "$(dirname "$0")/.." || exit 2
 tier=${1:-quick}
+bad=0
 for p in $(python3 -c "import json;print(' '.join(sorted(json.load(open('scripts/props.json')))))"); do
   out=$(python3 scripts/check.py $p $tier 2>&1); rc=$?
   echo "rc=$rc $(echo "$out" | tail -1)"
-  [ $rc -ne 0 ] && echo "$out" | grep VIOLATION | head -3
+  if [ $rc -ne 0 ]; then bad=1; echo "$out" | grep VIOLATION | head -3; fi
 done
+exit $bad
